@@ -90,7 +90,7 @@ let parse_state (line : string) : cstate =
     let brd = { b_white = n_of_hex w; b_black = n_of_hex b; b_pawn = n_of_hex p; b_knight = n_of_hex n_;
                 b_bishop = n_of_hex bi; b_rook = n_of_hex r; b_queen = n_of_hex q; b_king = n_of_hex k } in
     let i x = n_of_int (int_of_string x) in
-    let cp = { brd; halfmove = i half; fullmove = i full; ep = i ep; hash = n_of_hex h;
+    let cp = { brd; halfmove = n_of_dec half; fullmove = n_of_dec full; ep = i ep; hash = n_of_hex h;
                c0 = c0 = "1"; c1 = c1 = "1"; c2 = c2 = "1"; c3 = c3 = "1"; r0 = i r0; r1 = i r1; r2 = i r2; r3 = i r3;
                to_move = side_of_int (int_of_string turn); history = [] } in
     { cp; chash = n_of_hex h; ccalc = n_of_hex calc; cvalid = valid = "1"; chist = int_of_string hl }
@@ -119,16 +119,16 @@ let obs_state ?(want_valid = true) (s : sess) : cstate =
   bump "obs_state";
   c
 
-let parse_hist (line : string) : (string * int * int * int * string) list =
+let parse_hist (line : string) : (string * int * int * n * string) list =
   match String.split_on_char '|' line with
   | _ :: recs -> List.map (fun r -> match toks r with
-      | [ h; mv; ep; half; c ] -> (h, int_of_string mv, int_of_string ep, int_of_string half, c)
+      | [ h; mv; ep; half; c ] -> (h, int_of_string mv, int_of_string ep, n_of_dec half, c)
       | _ -> raise (Mismatch ("crash", "bad hist record " ^ r))) recs
   | [] -> []
 
 let hist_of_model (mp : position) =
   List.map (fun (r : hrec) ->
-      (hex_of_n r.h_hash, code_of_move r.h_move, int_of_n r.h_ep, int_of_n r.h_half,
+      (hex_of_n r.h_hash, code_of_move r.h_move, int_of_n r.h_ep, r.h_half,
        String.concat "" (List.map (fun b -> if b then "1" else "0") [ r.h_c0; r.h_c1; r.h_c2; r.h_c3 ]))) mp.history
 
 let obs_hist (s : sess) =
